@@ -103,6 +103,8 @@ def gen_history(rnd: random.Random, flavor: dict) -> dict:
             atoms["constraints"] = []
         sc["atoms"] = atoms
         mu = gen.rfloat(rnd, -0.5, 0.5, 4) if scale != "extreme" else gen.rfloat(rnd, -50, 50, 3)
+        if rnd.random() < 0.08:
+            mu = 0.0  # valid, and falsy
         params.update({"chemical_potential": mu, "number_of_exchange_particles": p0})
         if rnd.random() < flavor.get("accessible_volume", 0.2):
             params["accessible_volume"] = gen.logu(rnd, 10.0, 2000.0)
